@@ -5128,6 +5128,7 @@ class DecRule:
         self.depend = None
         self.roaffine = None
         self.var_coeff = None
+        self.num_rand = None
 
     def __repr__(self):
 
@@ -5186,14 +5187,20 @@ class DecRule:
 
     def to_affine(self):
 
-        if self.roaffine is not None:
+        self.fit_depend()
+        if self.roaffine is not None and (self.depend is None or
+                                          self.depend.shape[1] ==
+                                          self.num_rand):
             return self.roaffine
         else:
-            self.fit_depend()
             if self.depend is not None:
+                # built again with the same coefficients if random variables
+                # were declared after the rule was first used
+                self.num_rand = self.depend.shape[1]
                 num_ones = self.depend.sum()
-                var_coeff = self.model.dvar(num_ones)
-                self.var_coeff = var_coeff
+                if self.var_coeff is None:
+                    self.var_coeff = self.model.dvar(num_ones)
+                var_coeff = self.var_coeff
                 row_ind = np.where(self.depend.flatten() == 1)[0]
                 col_ind = var_coeff.get_ind()
                 num_rand = self.model.sup_model.vars[-1].last
